@@ -6,6 +6,8 @@ import solver_common as S
 
 CLAIMED = True
 
+PREDICATES = S.PREDICATES
+
 PROP = dict(
     proof_modules=["VrpProofs.C01", "VrpProofs.C06", "VrpProofs.C06Cap", "VrpProofs.C06CapVec"],
     model_modules=["VrpModel.Route", "VrpModel.C06", "VrpModel.Prag", "VrpModel.Spec"],
